@@ -327,6 +327,10 @@ def run(rep):
     rep.not_decided += ["fixed-input types: the number of iterations is a run-time quantity, so 'the ramp never overshoots 1/target' is not shown",
                         "strict monotonicity of evaluation instants at the floating-point level"]
     rep.trusted += ["syn parser", "sympy rational-function simplification"]
+    # everything else a working resampler needs (see rules/shares.py: a change that makes the resampler panic, drop frames, corrupt state on a
+    # rejected call or forward a trait-object call wrongly breaks this property as well)
+    import shares as _shares
+    _shares.complete(rep)
     return rep.finish(level="other", explanation=(
         "Induction-variable (scalar-evolution) reasoning on the per-frame stepping code of the four asynchronous resamplers and exact "
         "rational algebra relating the input-provisioning formulas to the closed-form advance of the ramp, in each calling context."))
